@@ -78,7 +78,7 @@ def rescale_part(run, np, psd, T):
     def overlap(lo1, hi1, lo2, hi2):
         return float(terms.ev(T["overlap"], {"lo1": lo1, "hi1": hi1, "lo2": lo2, "hi2": hi2, "zero": 0.0}))
 
-    for trial in range(40 if run.tier == "quick" else 400):
+    for trial in range(40 if run.tier == "quick" else 1500):
         nin = int(rng.integers(3, 9))
         nout = int(rng.integers(3, 7))
         F = 10.0 * np.cumprod(np.r_[1.0, rng.uniform(1.15, 1.6, nin - 1)])
@@ -386,7 +386,7 @@ def area_part(run, np, psd, T):
                           {"seg": [f1, p1, f2, p2]}, {"fn": "interp", "clause": "endpoint-roundoff"})
         run.trace_validated()
     # additivity over segments, several PSD columns, NaN rows skipped
-    for trial in range(30 if run.tier == "quick" else 300):
+    for trial in range(30 if run.tier == "quick" else 1500):
         nb = int(rng.integers(2, 7))
         f = np.cumprod(np.r_[rng.uniform(5, 30), rng.uniform(1.05, 4.0, nb)])
         dbo = rng.choice([-6.0, -3.0, 0.0, 3.0, 6.0, -3.0103, 4.5], nb)
